@@ -294,9 +294,15 @@ pub fn check_frame(data: &[u8]) -> Result<u32, Failure> {
                 }
             }
         }
-        for (nk, ak) in [(Some(&k1), Some(&k2)), (None, Some(&k2)), (Some(&k1), None)] {
+        // the caller's 32-bit counter is an input too: every epoch position relative to the wire counter
+        const COUNTERS: [u32; 10] = [0xFFFF_0000, 0, 1, 0xFFFF, 0x1_0000, 0x7FFF_FFFF, 0x8000_0000, 0xFFFF_0002, 0xFFFF_FFFE, 0xFFFF_FFFF];
+        for (ki, (nk, ak)) in [(Some(&k1), Some(&k2)), (None, Some(&k2)), (Some(&k1), None)].into_iter().enumerate() {
+          for (ci, fcnt_arg) in COUNTERS.iter().enumerate() {
+            if ci > 0 && (data.len() < 12 || ki > 0) {
+                break; // shorter strings cannot be data frames; the other counters with the full key pair only
+            }
             let mut b = data.to_vec();
-            if let Ok(d) = DecryptedDataPayload::decrypt_in_place(&mut b, nk, ak, 0xFFFF_0000) {
+            if let Ok(d) = DecryptedDataPayload::decrypt_in_place(&mut b, nk, ak, *fcnt_arg) {
                 oks += 1;
                 sink = sink.wrapping_add(d.fhdr().f_opts().len() as u64 + d.f_port().unwrap_or(0) as u64 + d.mic().0[3] as u64 + d.as_bytes().len() as u64 + d.frame_type() as u64 + d.is_uplink() as u64 + d.is_confirmed() as u64);
                 match d.frm_payload() {
@@ -311,9 +317,10 @@ pub fn check_frame(data: &[u8]) -> Result<u32, Failure> {
                     FrmPayload::None => {}
                 }
             }
+          }
         }
         let mut b = data.to_vec();
-        if let Ok(d) = DecryptedDataPayload::check_mic_and_decrypt_in_place(&mut b, &k1, Some(&k2), 7) {
+        if let Ok(d) = DecryptedDataPayload::check_mic_and_decrypt_in_place(&mut b, &k1, Some(&k2), COUNTERS[data.len() % COUNTERS.len()]) {
             oks += 1;
             sink = sink.wrapping_add(d.as_bytes().len() as u64);
         }
